@@ -208,7 +208,11 @@ where
         let mut node_pos = 0;
         for hole_pos in node_holes.iter() {
             let hole_pos = hole_pos.index();
-            if !(node_pos..total_nodes).contains(&hole_pos) {
+            // holes must be ascending, below the node bound, and leave enough real nodes
+            // to fill the gap in front of them
+            if !(node_pos..total_nodes).contains(&hole_pos)
+                || hole_pos - node_pos > compact_nodes.len()
+            {
                 return Err(invalid_hole_err(hole_pos));
             }
             nodes.extend(compact_nodes.by_ref().take(hole_pos - node_pos));
